@@ -9,6 +9,9 @@ Leg R: every vector x flags x ddof x degree is executed through scale / center /
        poly (direct calls with _state, and model_matrix + spec reuse on follow-up vectors);
        observed values are compared with (exact rational)/sqrt(exact rational); recorded state
        wins over arguments; NaN rows propagate; exp10/exp2/log10/log2 are exact on integers.
+       Elementwise family (kind "elem"): TLC emits b^k (b = 10, 2) for every integer exponent k of either sign in -ElemAbs..ElemAbs as
+       exact rational factors (laws: homomorphism, reciprocal, monotone, log_b inverse); replayed on columns of every numpy
+       integer / float dtype that holds the exponents.
 """
 from __future__ import annotations
 
@@ -166,6 +169,84 @@ def replay_poly(case):
     return bad, 6 + 3 * len(case["follow"])
 
 
+# numpy's own companion float of the narrow integer dtypes is float16 / float32 (numpy.exp2(int8) is a float16); the ufunc-backed functions
+# (exp, exp2, log, log2, log10) are therefore replayed on the dtypes whose companion is float64 only - what precision a narrow column is
+# owed is not said by the statement.  exp10 is the library's own lambda and is replayed on every dtype.
+WIDE = ("float64", "int64", "int32", "uint64", "uint32")
+NARROW = ("int16", "int8", "uint16", "uint8")
+
+
+def replay_elem(cases):
+    """the elementwise family: expected b^k is the product of the emitted rational factors, taken in unbounded integers; log_b(b^k) = k
+    is a law of the model.  gamma side: the same exponents held in every integer dtype (signed: both signs; unsigned: k >= 0), as a
+    pandas column through model_matrix and as a numpy vector through the preloaded function itself; and the powers 10^k / 2^k held in
+    the integer dtypes that have room for them, as arguments of the logarithms."""
+    from fractions import Fraction
+
+    import pandas
+    from formulaic import model_matrix
+    from formulaic.transforms import TRANSFORMS
+
+    def prod(fs):
+        r = Fraction(1)
+        for n, d in fs:
+            r *= Fraction(int(n), int(d))
+        return r
+
+    want = {"exp10": {int(c["k"]): prod(c["exp10"]) for c in cases}, "exp2": {int(c["k"]): prod(c["exp2"]) for c in cases}}
+    ks_all = sorted(want["exp10"])
+    bad, n = [], 0
+
+    def chk(base, what, col, got, exp, tol, atol):
+        got, exp = numpy.asarray(got, dtype=float), numpy.asarray(exp, dtype=float)
+        if not (got.shape == exp.shape and bool(numpy.allclose(got, exp, rtol=tol, atol=atol))):
+            i = [j for j in range(min(len(got), len(exp))) if not numpy.isclose(got[j], exp[j], rtol=tol, atol=atol)][:4]
+            bad.append({**base, "why": what, "at": [float(col[j]) for j in i], "observed": [float(got[j]) for j in i], "expected": [float(exp[j]) for j in i]})
+
+    def both(base, form, col, exp, tol):
+        """through a formula on a pandas column and (single preloaded function only) by calling the preloaded function on the vector"""
+        nonlocal n
+        n += 1
+        atol = 0 if form.startswith("exp") else tol          # powers down to 10^-127 are compared relatively; logarithms (0 among them) absolutely as well
+        try:
+            chk(base, f"model_matrix({form})", col, numpy.asarray(model_matrix("0 + " + form, pandas.DataFrame({"k": col}), context={}))[:, 0], exp, tol, atol)
+            if col.dtype.kind in "iu" and "exp10" in form:
+                # the same integers in pandas' nullable integer column of the same width (no value missing)
+                ext = pandas.array(col, dtype=("UInt" if col.dtype.kind == "u" else "Int") + str(8 * col.dtype.itemsize))
+                chk(base, f"model_matrix({form}) on a pandas {ext.dtype} column", col, numpy.asarray(model_matrix("0 + " + form, pandas.DataFrame({"k": ext}), context={}))[:, 0], exp, tol, atol)
+            if form.count("(") == 1:
+                with numpy.errstate(all="ignore"):
+                    chk(base, f"TRANSFORMS[{form.split('(')[0]!r}](ndarray)", col, TRANSFORMS[form.split("(")[0]](col), exp, tol, atol)
+        except Exception as e:  # noqa
+            bad.append({**base, "why": f"exception in {form}", "observed": type(e).__name__ + ": " + str(e)[:150]})
+
+    for dt in WIDE + NARROW:
+        info = numpy.finfo(dt) if dt.startswith("float") else numpy.iinfo(dt)
+        ks = [k for k in ks_all if info.min <= k <= info.max]
+        # all exponents of the dtype at once, and split by sign / magnitude (a column of small non-negative exponents is the easy case)
+        for sub in (ks, [k for k in ks if k < 0], [k for k in ks if 0 <= k <= 2], [k for k in ks if k > 2]):
+            if not sub:
+                continue
+            col = numpy.array(sub, dtype=dt)
+            base = {"transform": "elementwise", "dtype": dt, "arg": f"k = {sub[0]}..{sub[-1]}"}
+            both(base, "exp10(k)", col, [float(want["exp10"][k]) for k in sub], 1e-12)
+            both(base, "log10(exp10(k))", col, sub, 1e-9)
+            if dt in WIDE:
+                both(base, "exp2(k)", col, [float(want["exp2"][k]) for k in sub], 1e-12)
+                both(base, "log2(exp2(k))", col, sub, 1e-9)
+                both(base, "exp(k)", col, [math.exp(k) for k in sub], 1e-12)          # transcendental: libm is the oracle, as in elementwise()
+                both(base, "log(exp(k))", col, sub, 1e-9)
+        if dt in WIDE and not dt.startswith("float"):
+            # the integer powers themselves as arguments of the logarithm, as far as the dtype has room
+            for fn, b, inv in (("log10", "exp10", "exp10"), ("log2", "exp2", "exp2")):
+                sub = [k for k in ks if k >= 0 and want[b][k] <= info.max]
+                col = numpy.array([int(want[b][k]) for k in sub], dtype=dt)
+                base = {"transform": "elementwise", "dtype": dt, "arg": f"k = {b[3:]}**j, j = {sub[0]}..{sub[-1]}"}
+                both(base, f"{fn}(k)", col, sub, 1e-9)
+                both(base, f"{inv}({fn}(k))", col, [float(v) for v in col], 1e-9)
+    return bad, n
+
+
 def replay_case(case):
     return replay_scale(case) if case["kind"] == "scale" else replay_poly(case)
 
@@ -264,18 +345,29 @@ def _magnitude_case(ctx, off, mult, pandas, model_matrix, poly, scale):
 
 def run(ctx: Ctx) -> None:
     ctx.rule = ("every integer vector of length 2..MaxLen over Lo..Hi (not constant) x {center, scale flags, ddof 0/1} for scale and x degree 1..3 for poly "
-                "(needs > degree distinct values), 2 follow-up vectors each; elementwise functions on k = 0..8 and a grid; non-trivial = >= 3 distinct values")
+                "(needs > degree distinct values), 2 follow-up vectors each; elementwise functions on k = 0..8 and a grid, and on every integer exponent "
+                "-127..127 in every numpy integer dtype; non-trivial = >= 3 distinct values")
     ctx.trusted = ["sqrt and a 1e-9 comparison in the harness (irrational outputs)", "magnitudes limited by 32-bit rationals: no claim for 'any magnitude'", "TLC"]
     out = workdir("c13") / "cases.ndjson"
     out.unlink(missing_ok=True)
     maxlen, lo, hi = (4, 2, 3) if ctx.quick else (5, 2, 3)
-    r = run_tlc("MC_PolyScale", f"SPECIFICATION Spec\nCONSTANTS\n  MaxLen = {maxlen}\n  LoAbs = {lo}\n  Hi = {hi}\n  Emit = TRUE\nINVARIANT Laws\nINVARIANT EmitCase\n",
+    elem = 127            # every exponent an int8 holds (bar -128): past the wrap-around of every integer dtype (10^3 > int8, 10^19 > int64, 2^64)
+    r = run_tlc("MC_PolyScale", f"SPECIFICATION Spec\nCONSTANTS\n  MaxLen = {maxlen}\n  LoAbs = {lo}\n  Hi = {hi}\n  Emit = TRUE\n  ElemAbs = {elem}\nINVARIANT Laws\nINVARIANT EmitCase\n",
                 tag="c13", env={"OUT_FILE": str(out)}, timeout=3400)
     if r.violated:
         ctx.model_violation(r, "MC_PolyScale")
-    ctx.add_tlc(r, f"zero sum, unit variance, polynomial orthogonality, row-locality of reuse + emission; length <= {maxlen} over -{lo}..{hi}")
+    ctx.add_tlc(r, f"zero sum, unit variance, polynomial orthogonality, row-locality of reuse + emission; length <= {maxlen} over -{lo}..{hi}; "
+                   f"b^k for b = 10, 2 and integer k in -{elem}..{elem}: homomorphism, reciprocal, monotone, log inverse")
     cases = read_emitted(out)
     out.unlink()
+    elems, cases = [c for c in cases if c["kind"] == "elem"], [c for c in cases if c["kind"] != "elem"]
+    if len(elems) != 2 * elem + 1:
+        raise MachineryError(f"C13: {len(elems)} elementwise cases emitted, expected {2 * elem + 1}")
+    bad, n = pmap("harness.props.c13", "replay_elem", [elems], chunk=1)[0]
+    ctx.traces += n
+    ctx.evaluations += n
+    for b in bad:
+        ctx.violation({k: b.get(k) for k in ("transform", "dtype", "arg", "why")}, b, kind="replay")
     res = pmap("harness.props.c13", "replay_case", cases, chunk=50)
     for c, (bad, n) in zip(cases, res):
         ctx.traces += n
